@@ -108,12 +108,12 @@ Print Assumptions C15_sort_keys_only_order.
 (* ================================================================== *)
 (* refutations: the full statement fails outside D, clause by clause   *)
 (* ================================================================== *)
-Definition S (t : tag) (s : string) : scalar := mk t (str_of_string s).
-Definition E1 (t : tag) (s : string) (i : N) : elem := mke [S t s] i.
+Definition Sx (t : tag) (s : string) : scalar := mk t (str_of_string s).
+Definition E1 (t : tag) (s : string) (i : N) : elem := mke [Sx t s] i.
 
 (* [9223372036854775807, -2, 1] | sort is returned unchanged although 9223372036854775807 > -2 *)
 Theorem C15_int_overflow_refuted : exists a b c : elem,
-  sort_by [a; b; c] = Ok [a; b; c] /\ elem_cmp a b = Gt /\ cmp_sign (S TInt "9223372036854775807") (S TInt "-2") = Some Lt.
+  sort_by [a; b; c] = Ok [a; b; c] /\ elem_cmp a b = Gt /\ cmp_sign (Sx TInt "9223372036854775807") (Sx TInt "-2") = Some Lt.
 Proof.
   exists (E1 TInt "9223372036854775807" 0), (E1 TInt "-2" 1), (E1 TInt "1" 2). vm_compute. repeat split.
 Qed.
@@ -122,33 +122,33 @@ Print Assumptions C15_int_overflow_refuted.
 (* a number meets a string: 9 < 10 < "5" < 9 *)
 Theorem C15_num_str_cycle_refuted : exists a b c : scalar,
   cmp_sign a b = Some Lt /\ cmp_sign b c = Some Lt /\ cmp_sign c a = Some Lt.
-Proof. exists (S TInt "9"), (S TInt "10"), (S TStr "5"). vm_compute. repeat split. Qed.
+Proof. exists (Sx TInt "9"), (Sx TInt "10"), (Sx TStr "5"). vm_compute. repeat split. Qed.
 Print Assumptions C15_num_str_cycle_refuted.
 
 (* [0x10, 1.5] | sort reaches panic(err) *)
 Theorem C15_hex_float_panic_refuted : exists a b : scalar,
   cmp a b = Panic /\ sort_by [mke [a] 0; mke [b] 1] = Panic.
-Proof. exists (S TInt "0x10"), (S TFloat "1.5"). vm_compute. split; reflexivity. Qed.
+Proof. exists (Sx TInt "0x10"), (Sx TFloat "1.5"). vm_compute. split; reflexivity. Qed.
 Print Assumptions C15_hex_float_panic_refuted.
 
 (* so do the YAML spellings of infinity and NaN, and integers parseInt64 rejects *)
 Theorem C15_special_float_panic_refuted :
-  cmp (S TFloat ".inf") (S TFloat "1.5") = Panic /\ cmp (S TFloat ".nan") (S TFloat ".nan") = Panic
-  /\ cmp (S TInt "0b11") (S TInt "1") = Panic /\ cmp (S TInt "-0x10") (S TInt "1") = Panic
-  /\ cmp (S TInt "18446744073709551615") (S TInt "1") = Panic.
+  cmp (Sx TFloat ".inf") (Sx TFloat "1.5") = Panic /\ cmp (Sx TFloat ".nan") (Sx TFloat ".nan") = Panic
+  /\ cmp (Sx TInt "0b11") (Sx TInt "1") = Panic /\ cmp (Sx TInt "-0x10") (Sx TInt "1") = Panic
+  /\ cmp (Sx TInt "18446744073709551615") (Sx TInt "1") = Panic.
 Proof. vm_compute. repeat split. Qed.
 Print Assumptions C15_special_float_panic_refuted.
 
 (* NaN is greater than 1.0 and 1.0 is greater than NaN *)
 Theorem C15_nan_refuted : exists a b : scalar, cmp_sign a b = Some Gt /\ cmp_sign b a = Some Gt.
-Proof. exists (S TFloat "nan"), (S TFloat "1.0"). vm_compute. split; reflexivity. Qed.
+Proof. exists (Sx TFloat "nan"), (Sx TFloat "1.0"). vm_compute. split; reflexivity. Qed.
 Print Assumptions C15_nan_refuted.
 
 (* int/float through binary64, int/int exactly: a == b, b == c but a > c *)
 Theorem C15_mixed_precision_refuted : exists a b c : scalar,
   cmp_sign a b = Some Eq /\ cmp_sign b c = Some Eq /\ cmp_sign a c = Some Gt.
 Proof.
-  exists (S TInt "9007199254740993"), (S TFloat "9007199254740992.0"), (S TInt "9007199254740992").
+  exists (Sx TInt "9007199254740993"), (Sx TFloat "9007199254740992.0"), (Sx TInt "9007199254740992").
   vm_compute. repeat split.
 Qed.
 Print Assumptions C15_mixed_precision_refuted.
@@ -157,7 +157,7 @@ Print Assumptions C15_mixed_precision_refuted.
 Theorem C15_null_spelling_refuted : exists a b : scalar,
   vden a = vden b /\ cmp_sign a b = Some Gt /\
   sort_by [mke [a] 0; mke [b] 1] = Ok [mke [b] 1; mke [a] 0].
-Proof. exists (S TNull "~"), (S TNull "null"). vm_compute. repeat split. Qed.
+Proof. exists (Sx TNull "~"), (Sx TNull "null"). vm_compute. repeat split. Qed.
 Print Assumptions C15_null_spelling_refuted.
 
 (* null against a non-null: every operator answers false, so min depends on the input order *)
@@ -165,13 +165,13 @@ Theorem C15_ops_null_refuted : exists a b : scalar,
   ord_cmp (vden a) (vden b) = Lt /\ compare_scalars false false a b = Ok false /\ compare_scalars true false a b = Ok false
   /\ superlative false [(b, 0%N); (a, 1%N)] = Ok (Some (b, 0%N))
   /\ superlative false [(a, 0%N); (b, 1%N)] = Ok (Some (a, 0%N)).
-Proof. exists (S TNull "null"), (S TInt "1"). vm_compute. repeat split. Qed.
+Proof. exists (Sx TNull "null"), (Sx TInt "1"). vm_compute. repeat split. Qed.
 Print Assumptions C15_ops_null_refuted.
 
 (* the operators compare an int with a float through binary64 *)
 Theorem C15_ops_mixed_precision_refuted : exists a b : scalar,
   ord_cmp (vden a) (vden b) = Gt /\ compare_scalars false true a b = Ok false.
-Proof. exists (S TInt "9007199254740993"), (S TFloat "9007199254740992.0"). vm_compute. split; reflexivity. Qed.
+Proof. exists (Sx TInt "9007199254740993"), (Sx TFloat "9007199254740992.0"). vm_compute. split; reflexivity. Qed.
 Print Assumptions C15_ops_mixed_precision_refuted.
 
 (* a repeated key: sortKeys loses a value *)
@@ -193,7 +193,7 @@ Example C15_example :
   /\ consistentb l = false            (* 0x10 next to a float: outside D, and indeed a panic *)
   /\ sort_by l = Panic
   /\ consistentb (firstn 3 l2) = true /\ consistentb l2 = false
-  /\ int_reads_exact (S TInt "9007199254740992") = true /\ int_reads_exact (S TInt "9007199254740993") = false.
+  /\ int_reads_exact (Sx TInt "9007199254740992") = true /\ int_reads_exact (Sx TInt "9007199254740993") = false.
 Proof.
   cbv zeta. split; [vm_compute; reflexivity|]. split; [apply consistentb_sound; vm_compute; reflexivity|].
   vm_compute. repeat split.
